@@ -85,6 +85,26 @@ C02_Honoured(o) ==
             /\ (a[s].spec.reqIPs # <<>> => SetEq(a[s].status, a[s].spec.reqIPs))
             /\ (a[s].spec.reqPool # "" => a[s].ann = a[s].spec.reqPool)
 
+(* automatic allocation at the level of the controller: a Service without request that had no address *)
+(* and gets one in this handler call gets it from an auto-assign pool; pinned pools (ascending         *)
+(* priority number, 0 last) before unpinned ones                                                      *)
+Offers(L, al, p, s, r) ==
+  LET ips == SelectIPs(FirstFree(al, p, s, r, "v4"), FirstFree(al, p, s, r, "v6"), r)
+  IN ips # <<>> /\ AssignRes(L, al, s, ips, r).ok
+C02_AutoChoiceStatus(j, o) ==
+  (SameWalk(j, i) /\ Trace[j].crashes = o.crashes /\ ~o.crashed /\ o.op \in {"ReconcileOne", "PassStep"} /\ o.s \in SvcAll
+     /\ o.ctl # NOCFG /\ o.ctl = Trace[j].ctl) =>
+     LET p == Trace[j]  a == Api(p)  b == Api(o)  s == o.s  pre == Mem(p)  post == Mem(o) IN
+     ( /\ a[s] # NULL /\ b[s] # NULL /\ a[s].spec = b[s].spec /\ a[s].spec.type = "LB"
+       /\ a[s].spec.reqIPs = <<>> /\ a[s].spec.reqPool = "" /\ ~a[s].spec.bad
+       /\ a[s].status = <<>> /\ pre[s] = NULL
+       /\ post[s] # NULL /\ HasPool(o.ctl, post[s].pool) )
+     => LET L == o.ctl  r == ReqOf(a[s].spec)  q == PoolNamed(L, post[s].pool)
+            pinnedOffering == {x \in PinnedFor(L, s) : Offers(L, pre, x, s, r)}
+        IN /\ q.auto
+           /\ (q.alloc = NULL => pinnedOffering = {})
+           /\ (q.alloc # NULL /\ ~(r.fam = "dual" /\ r.pol = "P") => \A x \in pinnedOffering : PinRank(q) <= PinRank(x))
+
 (* C03: a service whose own request and the admissibility of its addresses  *)
 (* do not change keeps its addresses (PreferDualStack may gain the other    *)
 (* family from the same pool)                                               *)
@@ -215,6 +235,7 @@ Fails(k) ==
   (IF C02_PlacedStatus(o) THEN {} ELSE {"C02.PlacedStatus"}) \cup
   (IF C02_FamilyStatus(o) THEN {} ELSE {"C02.FamilyStatus"}) \cup
   (IF C02_Honoured(o) THEN {} ELSE {"C02.Honoured"}) \cup
+  (IF C02_AutoChoiceStatus(j, o) THEN {} ELSE {"C02.AutoChoiceStatus"}) \cup
   (IF C03_Stable(j, o) THEN {} ELSE {"C03.Stable"}) \cup
   (IF C03_StableMem(j, o) THEN {} ELSE {"C03.StableMem"}) \cup
   (IF C03_NoSpuriousWrite(o) THEN {} ELSE {"C03.NoSpuriousWrite"}) \cup
